@@ -270,6 +270,15 @@ enum CookieStatus {
     Good,
 }
 
+/// The largest response that may be sent over `protocol` to a client that advertised an EDNS
+/// payload size of `advertised` octets (512 if it advertised none).
+pub(crate) fn response_size_limit(protocol: &Protocol, advertised: u16) -> usize {
+    match protocol {
+        Protocol::Udp => std::cmp::max(advertised as usize, 512),
+        Protocol::Tcp => 65535,
+    }
+}
+
 pub struct DnsMessage {
     pub in_query: dnspkt::DNSPkt,
     pub in_size: usize,
@@ -736,7 +745,10 @@ impl DnsListenerHandler {
             ) {
                 Ok(msg) => {
                     let in_reply = Self::recv_in_query(&q, &msg).await.unwrap();
-                    let in_reply_bytes = in_reply.serialise();
+                    let in_reply_bytes = Self::prepare_to_send(
+                        &in_reply,
+                        response_size_limit(&msg.protocol, msg.in_query.bufsize),
+                    );
                     if !Self::should_ratelimit(
                         &msg,
                         &in_reply,
@@ -823,8 +835,10 @@ impl DnsListenerHandler {
             ) {
                 Ok(msg) => {
                     let in_reply = Self::recv_in_query(&q, &msg).await.unwrap();
-                    let serialised =
-                        Self::prepare_to_send(&in_reply, msg.in_query.bufsize as usize);
+                    let serialised = Self::prepare_to_send(
+                        &in_reply,
+                        response_size_limit(&msg.protocol, msg.in_query.bufsize),
+                    );
                     let mut in_reply_bytes = Vec::with_capacity(2 + serialised.len());
                     in_reply_bytes.extend((serialised.len() as u16).to_be_bytes().iter());
                     in_reply_bytes.extend(serialised);
